@@ -1,6 +1,7 @@
 // C08 replayer, square-blocked part: life-cycle histories generated from spec/PrecondBlk.tla are executed on the real
 // preconditioner classes instantiated for SparseMatrixBCSR<double, Index, BS, BS> / DenseVectorBlocked<double, Index, BS>
-// / UnitFilterBlocked<double, Index, BS>, BS = 2, 3 (JacobiPrecond, SORPrecond, SSORPrecond, PolynomialPrecond, ILUPrecond,
+// / FilterChain<UnitFilterBlocked, MeanFilterBlocked, UnitFilterBlocked> (the chain unit(F) ; mean(mp, md) ; unit(F2) of the
+// specification, empty members being the identity), BS = 2, 3 (JacobiPrecond, SORPrecond, SSORPrecond, PolynomialPrecond, ILUPrecond,
 // ScalePrecond, DiagonalPrecond, MatrixPrecond).  All values are dyadic rationals <<m, e>> = m / 2^e and every diagonal
 // (ILU: pivot) block has determinant +-2^k, so every correct floating point evaluation is exact: each apply() result is
 // compared with == against the results the specification allows in the current life-cycle state (case["tab"] holds the
@@ -14,6 +15,8 @@
 #include <kernel/lafem/dense_vector_blocked.hpp>
 #include <kernel/lafem/sparse_matrix_bcsr.hpp>
 #include <kernel/lafem/unit_filter_blocked.hpp>
+#include <kernel/lafem/mean_filter_blocked.hpp>
+#include <kernel/lafem/filter_chain.hpp>
 #include <kernel/solver/jacobi_precond.hpp>
 #include <kernel/solver/sor_precond.hpp>
 #include <kernel/solver/ssor_precond.hpp>
@@ -59,7 +62,9 @@ vj::Value run_blk(const vj::Value& c)
 {
   typedef LAFEM::SparseMatrixBCSR<DT, IT, BS, BS> MatT;
   typedef LAFEM::DenseVectorBlocked<DT, IT, BS> VecT;
-  typedef LAFEM::UnitFilterBlocked<DT, IT, BS> FilT;
+  typedef LAFEM::UnitFilterBlocked<DT, IT, BS> UFilT;
+  typedef LAFEM::MeanFilterBlocked<DT, IT, BS> MFilT;
+  typedef LAFEM::FilterChain<UFilT, MFilT, UFilT> FilT;
   typedef Tiny::Vector<DT, BS> VBlk;
 
   const Index n = Index(c["n"].as_int());
@@ -102,9 +107,25 @@ vj::Value run_blk(const vj::Value& c)
   }
   MatT mat(n, n, ci, va, rp);
   VecT diag(n);
-  FilT fil(n);
-  std::vector<char> filtered(n, 0);
-  for(std::size_t k = 0; k < c["F"].size(); ++k) { Index idx = Index(c["F"][k].as_int() - 1); fil.add(idx, VBlk(DT(0))); filtered[idx] = 1; }
+  // the filter chain  unit(F) ; mean ; unit(F2)
+  FilT fil;
+  const long long mk = c["mk"].as_int();
+  std::vector<char> filtered(n, 0);      // blocks that must vanish in every result: those of the LAST unit filter of the chain
+  {
+    UFilT u1(n), u2(n);
+    for(std::size_t k = 0; k < c["F"].size(); ++k) { Index idx = Index(c["F"][k].as_int() - 1); u1.add(idx, VBlk(DT(0))); if(mk == 0) filtered[idx] = 1; }
+    for(std::size_t k = 0; k < c["F2"].size(); ++k) { Index idx = Index(c["F2"][k].as_int() - 1); u2.add(idx, VBlk(DT(0))); filtered[idx] = 1; }
+    fil.template at<0>() = std::move(u1);
+    fil.template at<2>() = std::move(u2);
+    if(mk != 0)
+    {
+      Flat mp = flat_vec(c["mp"]), md = flat_vec(c["md"]);
+      VecT vp(n), vd(n);
+      DT* ep = vp.template elements<LAFEM::Perspective::pod>(); DT* ed = vd.template elements<LAFEM::Perspective::pod>();
+      for(Index i = 0; i < N; ++i) { ep[i] = mp[i]; ed[i] = md[i]; }
+      fil.template at<1>() = MFilT(std::move(vp), std::move(vd));
+    }
+  }
   int cur = 0;
   auto set_values = [&](int which)
   {
